@@ -668,6 +668,83 @@ inline CircuitSpec genLargeCircuit(uint32_t word, GenOpts o, int maxCells = 300)
   return s;
 }
 
+/// Movable cells lower than a row (height 0, half a row, or a row-high cell turned so that its
+/// narrow side is up) are accepted by the Circuit; no legalizer stage takes them, so legalization
+/// must fail on such a circuit (cleanly).  One case in eight gets one (word % 8 == 1), preferably
+/// not on the first movable cell.  Pure function of (s, word).
+inline bool addShortMovable(CircuitSpec &s, uint32_t word) {
+  if (word % 8 != 1) return false;
+  std::vector<int> mov;
+  for (size_t i = 0; i < s.cells.size(); ++i)
+    if (!s.cells[i].fixed) mov.push_back((int)i);
+  if (mov.empty()) return false;
+  size_t pick = mov.size() == 1 ? 0 : 1 + (word >> 8) % (mov.size() - 1);
+  CellSpec &c = s.cells[mov[pick]];
+  int kind = (int)((word >> 4) % 3);
+  if (kind == 2 && s.rowHeight >= 2) {
+    c.polarity = 0;
+    c.orient = (int)coloquinte::CellOrientation::E;
+    c.w = s.rowHeight - 1 - (int)((word >> 16) % (uint32_t)(s.rowHeight - 1));  // 1 .. rowHeight-1: placed height
+    c.h = std::max(1, c.h);
+  } else if (kind == 1 && s.rowHeight >= 2) {
+    c.h = s.rowHeight / 2;
+  } else {
+    c.h = 0;
+  }
+  s.labels.insert("cells:movable-cell-lower-than-a-row");
+  return true;
+}
+
+/// A degenerate but well-formed shape: every row is completely covered by a fixed obstruction
+/// (left part) and by movable multi-row cells that tile the rest exactly, so that after
+/// legalization no free row space is left for the detailed placer.  Pure function of word.
+inline CircuitSpec genCoveredCircuit(uint32_t word) {
+  using coloquinte::CellOrientation;
+  Tape w = expandTape((uint64_t)word ^ 0xC0FEEULL, 96);
+  CircuitSpec s;
+  static const int rhs[] = {1, 4, 10, 120};
+  s.rowHeight = rhs[w.next() % 4];
+  int nr = 2 + 2 * (int)(w.next() % 2);  // 2 or 4 rows
+  int W = 8 + (int)(w.next() % 53);
+  int ox = w.next() % 3 == 0 ? (int)(w.next() % 2000) - 1000 : 0, oy = w.next() % 3 == 0 ? (int)(w.next() % 2000) - 1000 : 0;
+  for (int r = 0; r < nr; ++r)
+    s.rows.emplace_back(ox, ox + W, oy + r * s.rowHeight, oy + (r + 1) * s.rowHeight, r % 2 ? CellOrientation::FS : CellOrientation::N);
+  int a = (int)(w.next() % (uint32_t)(W - 1));  // obstruction [0,a)
+  if (a > 0) {
+    CellSpec f;
+    f.fixed = true, f.obstruction = true, f.w = a, f.h = nr * s.rowHeight, f.x = ox, f.y = oy;
+    s.cells.push_back(f);
+  }
+  bool stacks = nr == 4 && w.next() % 2;  // two stacks of two-row cells instead of four-row cells
+  for (int st = 0; st < (stacks ? 2 : 1); ++st) {
+    int x = a;
+    while (x < W) {
+      int cw = 1 + (int)(w.next() % (uint32_t)std::min(W - x, 12));
+      if (W - x - cw == 0 || w.next() % 4 != 0 || true) {
+        CellSpec c;
+        c.w = cw, c.h = (stacks ? 2 : nr) * s.rowHeight;
+        c.x = ox + x, c.y = oy + st * 2 * s.rowHeight;
+        if (w.next() % 4 == 0) c.x += (int)(w.next() % 5) - 2;  // slightly off its slot
+        s.cells.push_back(c);
+      }
+      x += cw;
+    }
+  }
+  int nm = 0;
+  std::vector<int> mov;
+  for (size_t i = 0; i < s.cells.size(); ++i)
+    if (!s.cells[i].fixed) mov.push_back((int)i), ++nm;
+  for (int k = 0; k + 1 < nm && k < 4; ++k) {
+    NetSpec n;
+    n.cells = {mov[k], mov[k + 1]};
+    n.xo = {0, 0}, n.yo = {0, 0};
+    n.weight = 1.0f;
+    s.nets.push_back(n);
+  }
+  s.labels.insert("shape:rows-fully-covered");
+  return s;
+}
+
 /// The rows of a circuit may be given in any order: reorder them (0: as generated, i.e. sorted
 /// by y then x; 1: reversed; 2: rotated; 3: deterministic shuffle).  Pure function of (s, word).
 inline const char *permuteRows(CircuitSpec &s, uint32_t word) {
@@ -863,7 +940,13 @@ inline ColoquinteParameters genParams(Tape &t, const ParamOpts &po, std::set<std
     if (maybe()) cm.netModel = (NetModelOption)t.choose(0, 3);
     if (maybe()) cm.approximationDistance = t.real(po.moderateBox ? 0.1 : 1e-6, 50.0);
     if (maybe()) cm.approximationDistanceUpdateFactor = t.real(0.8, 1.2);
-    if (maybe()) cm.maxNbConjugateGradientSteps = t.choose(1, 1000);
+    if (maybe()) {
+      // one word, three bands: a cap the solver actually hits (1..5, 6..40) or a generous one
+      uint32_t w = t.next();
+      int band = (int)(w % 3);
+      cm.maxNbConjugateGradientSteps = band == 0 ? 1 + (int)((w / 3) % 5) : band == 1 ? 6 + (int)((w / 3) % 35) : 41 + (int)((w / 3) % 960);
+      if (labels && band < 2) labels->insert("params:cg-iteration-cap<=40");
+    }
     if (maybe()) cm.conjugateGradientErrorTolerance = std::pow(10.0, -t.real(0.0, po.moderateBox ? 6.0 : 8.0));
     auto &rl = g.roughLegalization;
     if (maybe()) rl.costModel = (LegalizationModel)t.choose(0, 5);
